@@ -92,11 +92,13 @@ def run_case(case):
     open(os.path.join(parent, "sibling", "inner.txt"), "wb").write(b"sentinel2\n")
     open(os.path.join(parent, "cvprobe_n"), "wb").write(b"sentinel3\n")     # a file the walk could reach with one ".."
     slash_before = set(os.listdir("/"))
-    # symbolic components: L long, U2.. long runs of 2/3/4-byte characters at every alignment (a reply that cuts an echoed path
+    # symbolic components: BK* ordinary NAMES that contain backslashes and dots (one component each: nothing to refuse, nothing
+    # may leave the root), L long, U2.. long runs of 2/3/4-byte characters at every alignment (a reply that cuts an echoed path
     # must cut it at a character boundary), XL / CTL / BSL very long (plain, control characters, backslashes - a reply that echoes
     # the path must still fit a control frame), n.. / ..n names that merely contain dots
     pstr = ("/" if case["abs"] else "") + "/".join({"L": "x" * 300, "n": "cvprobe_n", "..n": "..cvprobe_n", "n..": "cvprobe_n..",
                                                     "XL": "y" * 700_000, "CTL": "\x01\x02" * 150_000, "BSL": "a\\\"" * 300_000,
+                                                    "BK1": "..\\cvprobe_n", "BK2": "\\cvprobe_n", "BK3": "a\\..\\..\\cvprobe_n", "BK4": "..\\..\\cvprobe_n",
                                                     "U2": "\u00e9" * 200, "U2a": "a" + "\u00e9" * 200, "U3": "\u30ca" * 120, "U3a": "a" + "\u30ca" * 120,
                                                     "U3b": "ab" + "\u30ca" * 120, "U4": "\U0001F600" * 90, "U4a": "a" + "\U0001F600" * 90}.get(c, c) for c in case["comps"])
     env = dict(os.environ, LD_PRELOAD=CFG["shim"], COPIA_SHIM_ROOTS="/", COPIA_SHIM_LOG=os.path.join(d, "log"), RUST_LOG="off")
